@@ -55,6 +55,7 @@ type qvar struct {
 type typeExpr struct {
 	ptr   int
 	slice bool
+	mapK  *typeExpr // map[K]elem
 	pkg   string
 	name  string
 	elem  *typeExpr // for slice
@@ -262,6 +263,13 @@ func (p *specParser) typ() *typeExpr {
 		return te
 	}
 	n := p.ident()
+	if n == "map" && p.isOp("[") {
+		p.next()
+		te.mapK = p.typ()
+		p.expect("]")
+		te.elem = p.typ()
+		return te
+	}
 	if p.isOp(".") {
 		p.next()
 		te.pkg = n
